@@ -36,6 +36,8 @@ type c03Entry struct {
 var c03Entries = []c03Entry{
 	{"Parse", true, false}, {"ParseString", true, false}, {"ParseReader", true, true}, {"Write", false, true},
 	{"BytesDecoder.Next", true, false}, {"ReaderDecoder.Next", true, true},
+	// readers that hand out their last chunk together with io.EOF (legal per the io.Reader contract)
+	{"ParseReader(data+EOF)", true, true}, {"ReaderDecoder.Next(data+EOF)", true, true},
 }
 
 var allocSample = []metrics.Sample{{Name: "/gc/heap/allocs:bytes"}}
@@ -56,8 +58,8 @@ func c03Run(cd *Codec, in []byte, entry int, chunks [][2]int, bufSize int, refNo
 			return cd.Parse(exact(in), rec)
 		case 1:
 			return cd.ParseString(string(in), rec)
-		case 2:
-			_, err := cd.ParseReader(&chunkReader{doc: in, chunks: copyChunks(chunks)}, rec)
+		case 2, 6:
+			_, err := cd.ParseReader(&chunkReader{doc: in, chunks: copyChunks(chunks), eofWith: entry == 6}, rec)
 			return err
 		case 3:
 			w := cd.NewWriter(rec)
@@ -67,12 +69,12 @@ func c03Run(cd *Codec, in []byte, entry int, chunks [][2]int, bufSize int, refNo
 				}
 			}
 			return nil
-		case 4, 5:
+		case 4, 5, 7:
 			var d Nexter
 			if entry == 4 {
 				d = cd.BytesDec(exact(in), rec)
 			} else {
-				d = cd.ReaderDec(&chunkReader{doc: in, chunks: copyChunks(chunks)}, bufSize, rec)
+				d = cd.ReaderDec(&chunkReader{doc: in, chunks: copyChunks(chunks), eofWith: entry == 7}, bufSize, rec)
 			}
 			for i := 0; ; i++ {
 				if err := d.Next(); err != nil {
@@ -161,7 +163,7 @@ func c03Check(x *engine.Exec, cd *Codec, in []byte, fam string, combos [][3]int)
 			}
 			x.Count("truncation_reported", 1)
 		}
-		if entry >= 4 && res.Err == nil {
+		if (entry == 4 || entry == 5 || entry == 7) && res.Err == nil {
 			engine.Fail("decoder loop ended without error")
 		}
 		x.Outcome(ent + "|" + errStr(res.Err))
@@ -181,14 +183,14 @@ func c03Combos(n int, bufSize int) [][3]int {
 
 // c03LightCombos: Parse whole, ParseReader + Write + ReaderDecoder in single bytes, BytesDecoder.
 func c03LightCombos(n int) [][3]int {
-	return [][3]int{{0, 0, 0}, {2, n, 0}, {3, n, 0}, {4, 0, 0}, {5, n, 2}}
+	return [][3]int{{0, 0, 0}, {2, n, 0}, {3, n, 0}, {4, 0, 0}, {5, n, 2}, {6, 0, 0}, {7, 0, 8}}
 }
 
 func init() {
 	register(func() {
 		engine.Register(&engine.Check{
 			ID: "C03", Level: "exploration",
-			Rule:        "byte strings: ALL strings of length <=2 over all 256 byte values; all strings of length 3..L over a per-format reduced alphabet (one symbol per parser branch: 52 CBOR, 27 UBJSON, 35 JSON symbols); length/argument fields set to 0,1,2^31,2^32,2^62,2^63-1,2^63,2^64-1 followed by 0-2 payload bytes; every single-byte deletion/truncation/substitution (from the reduced alphabet) of a corpus of valid documents; x entry points {Parse, ParseString, ParseReader, Write, BytesDecoder.Next loop, ReaderDecoder.Next loop} x chunkings {whole, every single cut, all single bytes}; oracle: no panic, deterministic step budget 2000+400n (no wall clock), allocation <= 1MiB+1KiB*(n+events), decoder loop terminates, and reference verdict Truncated => error other than io.EOF; a case is one input string (distinct by codec+bytes), non-trivial = at least 2 bytes",
+			Rule:        "byte strings: ALL strings of length <=2 over all 256 byte values; all strings of length 3..L over a per-format reduced alphabet (one symbol per parser branch: 52 CBOR, 27 UBJSON, 35 JSON symbols); length/argument fields set to 0,1,2^31,2^32,2^62,2^63-1,2^63,2^64-1 followed by 0-2 payload bytes; every single-byte deletion/truncation/substitution (from the reduced alphabet) of a corpus of valid documents; x entry points {Parse, ParseString, ParseReader, Write, BytesDecoder.Next loop, ReaderDecoder.Next loop, and the two reader-based ones over a reader that returns its last chunk together with io.EOF} x chunkings {whole, every single cut, all single bytes}; oracle: no panic, deterministic step budget 2000+400n (no wall clock), allocation <= 1MiB+1KiB*(n+events), decoder loop terminates, and reference verdict Truncated => error other than io.EOF; a case is one input string (distinct by codec+bytes), non-trivial = at least 2 bytes",
 			Assumptions: []string{"bytes outside the reduced alphabet beyond length 2 take the default branches already represented", "time proportionality is established as a bound on instrumented steps (function entries and loop iterations), not seconds"},
 			Families:    c03Families,
 			Bounds: func(tier string) map[string]interface{} {
